@@ -156,7 +156,16 @@ def impl(op, backend):
     f = D.fields(w)
     try:
         if e == "datetime":
-            r = p.datetime(*f, tz=tz, fold=fold, raise_on_unknown_times=bool(rz))
+            import zlib
+            if zr[0] not in "nf" and zlib.crc32(("local" + repr(op)).encode()) % 8 == 0:
+                # the zone given as the string "local" while it is the configured local timezone (which changes from op to op)
+                p.set_local_timezone(tz)
+                try:
+                    r = p.datetime(*f, tz="local", fold=fold, raise_on_unknown_times=bool(rz))
+                finally:
+                    p.set_local_timezone()
+            else:
+                r = p.datetime(*f, tz=tz, fold=fold, raise_on_unknown_times=bool(rz))
         elif e == "tzconvert":
             r = tz.convert(dt.datetime(*f, fold=fold), raise_on_unknown_times=bool(rz))
         elif e == "tzconvert_pdt":
@@ -174,7 +183,15 @@ def impl(op, backend):
                 p.set_local_timezone()
         elif e == "parse":
             s = "%04d-%02d-%02dT%02d:%02d:%02d.%06d" % f
-            r = p.parse(s, tz=tz)
+            import zlib
+            if zr[0] not in "nf" and zlib.crc32(("local" + repr(op)).encode()) % 8 == 0:
+                p.set_local_timezone(tz)
+                try:
+                    r = p.parse(s, tz="local")
+                finally:
+                    p.set_local_timezone()
+            else:
+                r = p.parse(s, tz=tz)
         elif e == "instance":
             r = p.instance(dt.datetime(*f, fold=fold), tz=tz)
         elif e == "replace_fold":
